@@ -151,3 +151,31 @@ func VerifC02SigLength() {
 	}
 	rt.Reach("end")
 }
+
+// VerifC02DigestIsNotData: a signature over data D does not verify for the message whose bytes are the
+// digest of D (nor does a signature made over an already-hashed value verify for that value's pre-image
+// being absent): what is signed is hash(data), exactly once.
+func VerifC02DigestIsNotData() {
+	sk, pub, _ := c02Key("seed")
+	ctx := rt.String("ctx", 0, 1)
+	data := rt.Bytes("data", 0, 2)
+	ht := hash.HashType(rt.IntRange("ht", 1, 3))
+	sig, err := NewSignature(ctx, sk, ht, data, false)
+	rt.Assert("sign", err == nil)
+	var digest []byte
+	switch ht {
+	case hash.HashType_HashType_SHA256:
+		digest = rt.RefSHA256(data)
+	case hash.HashType_HashType_SHA1:
+		digest = rt.RefSHA1(data)
+	case hash.HashType_HashType_BLAKE3:
+		digest = rt.RefBLAKE3(data)
+	}
+	ok, _ := sig.VerifyWithPublic(ctx, pub, digest)
+	rt.Assert("a signature over D does not verify for the message H(D)", !ok)
+	id, _ := IDFromPublicKey(pub)
+	m := &SignedMsg{FromPeerId: IDB58Encode(id), Signature: sig, Data: digest}
+	_, _, err = m.ExtractAndVerify(ctx)
+	rt.Assert("nor does a signed message whose body was replaced by its digest", err != nil)
+	rt.Reach("end")
+}
